@@ -930,25 +930,31 @@ func ruleC11CaseCoverage2(c *Ctx, rule string) {
 			fmt.Sprintf("the equality function can panic for operand kinds %s, which are JSON-shaped", ks&jsonShaped))
 	})
 	// recursion on elements: lengths first, missing keys tested
-	n := 0
+	n, nElems, nMembers := 0, 0, 0
 	for _, fi := range c.familyInstrs(eq) {
 		fi := fi
 		call, ok := fi.I.(*ssa.Call)
 		if !ok || call.Call.StaticCallee() != eq {
 			continue
 		}
-		a, ok1 := call.Call.Args[0].(*ssa.Call)
-		b, ok2 := call.Call.Args[1].(*ssa.Call)
-		if !ok1 || !ok2 {
-			continue
+		// (an argument can also be the value handed to the body of a range-over-func loop: not a call)
+		a, _ := call.Call.Args[0].(*ssa.Call)
+		b, _ := call.Call.Args[1].(*ssa.Call)
+		ka, kb := "", ""
+		if a != nil {
+			ka = core.CalleeKey(&a.Call)
 		}
-		ka, kb := core.CalleeKey(&a.Call), core.CalleeKey(&b.Call)
+		if b != nil {
+			kb = core.CalleeKey(&b.Call)
+		}
 		switch {
 		case ka == "reflect.Value.Index" && kb == "reflect.Value.Index":
 			n++
+			nElems++
 			c.R.Check(guardedByLenEqualityFam(fi, sx, sy), rule, fmt.Sprintf("elements#%d:length-first", n), c.pos(call), "elements are compared only after the lengths were found equal", "array elements are compared without a preceding test that the lengths are equal: a shorter array equals a longer one with the same prefix (or Index panics)")
 		case kb == "reflect.Value.MapIndex" || ka == "reflect.Value.MapIndex":
 			n++
+			nMembers++
 			mi := b
 			if ka == "reflect.Value.MapIndex" {
 				mi = a
@@ -1001,6 +1007,8 @@ func ruleC11CaseCoverage2(c *Ctx, rule string) {
 	}
 	// one element recursion (arrays and slices may share it) and one member recursion at least
 	c.R.Floor(rule, "element/member recursions", n, 2)
+	c.R.Floor(rule, "element recursions (Index, Index)", nElems, 1)
+	c.R.Floor(rule, "member recursions (value, MapIndex)", nMembers, 1)
 	// identity shortcuts only after the length test
 	core.EachInstr(eq, func(i ssa.Instruction) {
 		ret, ok := i.(*ssa.Return)
